@@ -11,6 +11,7 @@ import (
 	"encoding/json"
 	"fmt"
 	"os"
+	"path/filepath"
 	"strings"
 	"time"
 
@@ -20,8 +21,9 @@ import (
 func init() { commands["runpy"] = runpyMain }
 
 type runpyIn struct {
-	Src  string `json:"src"`
-	Mode string `json:"mode"`
+	Src   string            `json:"src"`
+	Mode  string            `json:"mode"`
+	Files map[string]string `json:"files"` // module files written to a scratch dir that is put on sys.path
 }
 type runpyOut struct {
 	Out   string `json:"out"`
@@ -33,7 +35,19 @@ type runpyOut struct {
 }
 
 func runOne(in runpyIn) (res runpyOut) {
-	ctx := py.NewContext(py.DefaultContextOpts())
+	opts := py.DefaultContextOpts()
+	if len(in.Files) > 0 {
+		dir, err := os.MkdirTemp("", "verif-mods-")
+		if err != nil {
+			return runpyOut{Err: "SetupError"}
+		}
+		defer os.RemoveAll(dir)
+		for name, text := range in.Files {
+			os.WriteFile(filepath.Join(dir, name), []byte(text), 0o644)
+		}
+		opts.SysPaths = append([]string{dir}, opts.SysPaths...)
+	}
+	ctx := py.NewContext(opts)
 	defer ctx.Close()
 	return runIn(ctx, in)
 }
